@@ -150,3 +150,27 @@ Lemma zeros_bytes k : all_bytes (zeros k) = true.
 Proof. apply all_bytes_repeat. reflexivity. Qed.
 Lemma zeros_all_zero k x : In x (zeros k) -> x = 0.
 Proof. unfold zeros. intros H. apply repeat_spec in H. exact H. Qed.
+
+(* x[len(a):] and x[:len(a)] on a concatenation *)
+Lemma py_slice_app_tail {A} (a b : list A) : py_slice (a ++ b) (Some (zlen a)) None = b.
+Proof.
+  pose proof (zlen_nonneg a) as Ha. pose proof (zlen_nonneg b) as Hb.
+  unfold py_slice. rewrite zlen_app. rewrite clamp_id by lia.
+  destruct (zlen a + zlen b <=? zlen a) eqn:E.
+  - apply Z.leb_le in E. assert (zlen b = 0) by lia. destruct b as [|x0 b']; [reflexivity|].
+    rewrite zlen_cons in H. pose proof (zlen_nonneg b'). lia.
+  - rewrite skipn_zlen_app. replace (zlen a + zlen b - zlen a) with (zlen b) by lia.
+    unfold zlen. rewrite Nat2Z.id. apply firstn_all.
+Qed.
+
+Lemma py_slice_app_head {A} (a b : list A) : py_slice (a ++ b) None (Some (zlen a)) = a.
+Proof.
+  pose proof (zlen_nonneg a) as Ha. pose proof (zlen_nonneg b) as Hb.
+  rewrite py_slice_prefix by (rewrite zlen_app; lia). apply firstn_zlen_app.
+Qed.
+
+Lemma b2n_zeros_app j l : bytesToNumber (zeros j ++ l) = bytesToNumber l.
+Proof.
+  unfold zeros. induction (Z.to_nat j) as [|m IH]; cbn [repeat app]; [reflexivity|].
+  rewrite b2n_cons, IH. lia.
+Qed.
